@@ -161,6 +161,30 @@ def _appends(stmts, loop, in_handler, acc):
             _appends(st.body, loop, in_handler, acc)
 
 
+def _placements(stmts, loop, in_handler, guards, acc):
+    """every operation on `results` / `callbacks` under stmts with the branch it sits in: (<loop>Err|<loop>Ok, operation, guards),
+    guards = the tests of the enclosing ifs inside the loop, '+' for the then-branch, '-' for the else-branch"""
+    for st in stmts:
+        if isinstance(st, ast.Expr) and isinstance(st.value, ast.Call) and isinstance(st.value.func, ast.Attribute) \
+                and ast.unparse(st.value.func.value) in ('results', 'callbacks'):
+            f = ast.unparse(st.value.func)
+            acc.append((loop + ('Err' if in_handler else 'Ok'), f if f == 'results.append' else ast.unparse(st.value), list(guards)))
+        elif isinstance(st, (ast.Assign, ast.AugAssign, ast.Delete)) and any(x in ast.unparse(st).split('=')[0] for x in ('results', 'callbacks')):
+            acc.append((loop + ('Err' if in_handler else 'Ok'), ast.unparse(st), list(guards)))
+        elif isinstance(st, ast.Try):
+            _placements(st.body, loop, in_handler, guards, acc)
+            for h in st.handlers:
+                _placements(h.body, loop, True, guards, acc)
+            _placements(st.orelse, loop, in_handler, guards, acc)
+            _placements(st.finalbody, loop, in_handler, guards, acc)
+        elif isinstance(st, ast.If):
+            t = ast.unparse(st.test)
+            _placements(st.body, loop, in_handler, guards + ['+' + t], acc)
+            _placements(st.orelse, loop, in_handler, guards + ['-' + t], acc)
+        elif isinstance(st, (ast.For, ast.While, ast.With)):
+            _placements(st.body, loop, in_handler, guards, acc)
+
+
 def TABLES():
     import importlib
     import supervisor.xmlrpc as xr
@@ -232,6 +256,17 @@ def TABLES():
     out.append('/-- `func` is not called anywhere else in the closure (in particular not in the poll loop) -/')
     allcalls = [n for n in ast.walk(inner) if isinstance(n, ast.Call) and isinstance(n.func, ast.Name) and n.func.id == 'func']
     out.append('def funcCalledOnlyInWalk : Bool := %s' % ('true' if len(allcalls) == len(calls) == 1 else 'false'))
+
+    # ---- where the two lists are touched
+    pl = []
+    if walk is not None:
+        _placements(walk.body, 'walk', False, [], pl)
+    if poll is not None:
+        _placements(poll.body, 'poll', False, [], pl)
+    out.append('/-- every operation on `results` and `callbacks` inside the two loops, in source order: (branch, operation, tests of the')
+    out.append('    enclosing ifs: + then-branch, - else-branch) -/')
+    out.append('def listOpPlacement : List (String × String × List String) := [\n  ' + ',\n  '.join(
+        '(%s, %s, [%s])' % (lean_str(a), lean_str(b), ', '.join(lean_str(g) for g in c)) for a, b, c in pl) + ']')
 
     # ---- the four result entries
     sites = []
